@@ -164,6 +164,9 @@ namespace CMP
 {
     struct VerifAccess
     {
+        // the pending table's key type: equality and hash over all id values (leaf check, C18/C05)
+        static bool keyEq(uint16_t d1, uint8_t s1, uint16_t d2, uint8_t s2) { return Decoder::Endpoint{d1, s1} == Decoder::Endpoint{d2, s2}; }
+        static size_t keyHash(uint16_t d, uint8_t s) { return Decoder::EndpointHash()(Decoder::Endpoint{d, s}); }
         static size_t pendingCount(Decoder& d) { return d.segmentedPackets.size(); }
         static bool hasEntry(Decoder& d, uint16_t dev, uint8_t stream) { return d.segmentedPackets.count(Decoder::Endpoint{dev, stream}) != 0; }
         static size_t entryBytes(Decoder& d, uint16_t dev, uint8_t stream)
@@ -505,4 +508,17 @@ VP_HARNESS(h_seq)
                           PL("buffered bytes are the message header plus the declared segment bytes received so far"));
 #endif
     }
+}
+
+
+// The pending table is keyed by (device id, stream id): two endpoints are the same key iff both ids are equal, and equal
+// keys hash equally - for all 2^48 pairs of ids (this is what makes the concrete id representatives of h_seq representative).
+VP_HARNESS(h_endpoint_key)
+{
+    const uint16_t d1 = vp_u16(), d2 = vp_u16();
+    const uint8_t s1 = vp_u8(), s2 = vp_u8();
+    const bool same = d1 == d2 && s1 == s2;
+    vp_assert(VerifAccess::keyEq(d1, s1, d2, s2) == same, PL("two frames address the same reassembly state iff device id and stream id are both equal"));
+    if (same)
+        vp_assert(VerifAccess::keyHash(d1, s1) == VerifAccess::keyHash(d2, s2), PL("equal endpoints hash equally"));
 }
